@@ -28,6 +28,7 @@ type intent struct {
 	loopX  []string
 	own    []*closure
 	depth  int
+	noAttrsSep bool // reproduce the recorded finding: the @attributes list is written without its separating blank
 }
 
 type closure struct {
@@ -228,7 +229,11 @@ func (it *intent) elem(n *gen.Node) bool {
 			}
 		}
 		sort.Strings(items)
-		for _, i := range items {
+		for k, i := range items {
+			if k == 0 && it.noAttrsSep {
+				it.w(i)
+				continue
+			}
 			it.w(" " + i)
 		}
 	}
@@ -469,8 +474,19 @@ func resolve(ps []piece) string {
 }
 
 // Intent returns (bytes, err class, ok). ok=false: the generator cannot tell (fragment outside its vocabulary).
+// IntentKnownAttrsSep: what the template denotes EXCEPT for the recorded finding attributes-separator (the list
+// of an @attributes command is written without the blank that separates it from what precedes it). A render
+// that differs from Intent but equals this is that finding and nothing else.
+func IntentKnownAttrsSep(f *gen.File, name string, e Env) (string, string, bool) {
+	return intentOpt(f, name, e, true)
+}
+
 func Intent(f *gen.File, name string, e Env) (string, string, bool) {
-	it := &intent{f: f, e: e}
+	return intentOpt(f, name, e, false)
+}
+
+func intentOpt(f *gen.File, name string, e Env, noAttrsSep bool) (string, string, bool) {
+	it := &intent{f: f, e: e, noAttrsSep: noAttrsSep}
 	for _, t := range f.Templates {
 		if t.Name == name {
 			it.own = []*closure{nil}
